@@ -1550,6 +1550,21 @@ func stopFacts(f *facts) {
 			}
 			return true
 		})
+		// top-level statements of sendChunk: where OnForwarded sits relative to the send and to the hand-off select
+		for _, st := range fd.Body.List {
+			switch y := st.(type) {
+			case *ast.IfStmt:
+				if y.Init != nil && strings.Contains(src(y.Init), "session.conn.SendChunk") && endsInReturn(y.Body) {
+					cs = append(cs, "sendChunk: return on SendChunk error")
+				}
+			case *ast.ExprStmt:
+				if src(y.X) == "session.metrics.OnForwarded(chunk)" {
+					cs = append(cs, "sendChunk: OnForwarded")
+				}
+			case *ast.SelectStmt:
+				cs = append(cs, "sendChunk: hand-off select")
+			}
+		}
 	}
 	if fd := fn(sess, "runAcknowledger", "clientSession"); fd != nil {
 		var seq []string
